@@ -2,6 +2,7 @@ package main
 
 import (
 	"fmt"
+	"hash/crc32"
 	"math/rand"
 	"strings"
 
@@ -81,6 +82,10 @@ func serveOne(d *testdirectory.Directory, frame []byte) ([]string, error) {
 	if err != nil {
 		return nil, err
 	}
+	return serveOneMux(mux, frame)
+}
+
+func serveOneMux(mux *gldap.Mux, frame []byte) ([]string, error) {
 	vc := gldap.NewVerifConn(1, frame, mux)
 	req, err := vc.ReadRequest(1)
 	if err != nil {
@@ -110,7 +115,7 @@ type tdBindStream struct{}
 
 func (tdBindStream) Name() string { return "tdbind" }
 func (tdBindStream) Rule() string {
-	return "user sets of 0..5 entries over a DN pool with prefixes / extensions / case variants / duplicates, with and without password attributes (also several, empty, multi-valued), bind DNs from the same pool, passwords from the users' values plus near misses and the empty password, both settings of AllowAnonymousBind; served in-process through the directory's own mux and bind handler; oracle: the three-line reference predicate; non-trivial = at least one user with the bind DN, distinct by case"
+	return "user sets of 0..5 entries over a DN pool with prefixes / extensions / case variants / duplicates, with and without password attributes (also several, empty, multi-valued), bind DNs from the same pool, passwords from the users' values plus near misses and the empty password, both settings of AllowAnonymousBind, configured either at construction or (every second case) through SetUsers / SetAllowAnonymousBind after the handlers were registered; served in-process through the directory's own mux and bind handler; oracle: the three-line reference predicate; non-trivial = at least one user with the bind DN, distinct by case"
 }
 
 var tdDNs = []string{"cn=alice,ou=people,dc=example,dc=org", "cn=alice,ou=people,dc=example,dc=org ", "cn=alice", "cn=alic", "CN=ALICE,ou=people,dc=example,dc=org",
@@ -168,10 +173,25 @@ func (tdBindStream) Impl(c Case) string {
 	for _, u := range us {
 		users = append(users, realEntry(u))
 	}
-	d := testdirectory.VerifNewDirectory(&harnessT{}, &testdirectory.Defaults{Users: users, AllowAnonymousBind: f[1] == "anon=1",
-		UserDN: testdirectory.DefaultUserDN, GroupDN: testdirectory.DefaultGroupDN})
+	anon := f[1] == "anon=1"
+	// half of the cases configure the directory only after its handlers have been registered (as a test does
+	// that calls SetUsers / SetAllowAnonymousBind on a running directory): the starting values are the opposite
+	late := crc32.ChecksumIEEE([]byte(c.Line))&1 == 1
+	def := &testdirectory.Defaults{Users: users, AllowAnonymousBind: anon, UserDN: testdirectory.DefaultUserDN, GroupDN: testdirectory.DefaultGroupDN}
+	if late {
+		def.Users, def.AllowAnonymousBind = nil, !anon
+	}
+	d := testdirectory.VerifNewDirectory(&harnessT{}, def)
+	mux, err := d.VerifMux()
+	if err != nil {
+		return "err mux"
+	}
+	if late {
+		d.SetAllowAnonymousBind(anon)
+		d.SetUsers(users...)
+	}
 	frame := Seq(Int(2, 9), C(1, 0, Int(2, 3), Oct(string(unhx(f[3]))), P(2, 0, unhx(f[4])))).Ser()
-	views, err := serveOne(d, frame)
+	views, err := serveOneMux(mux, frame)
 	if err != nil || len(views) != 1 {
 		return fmt.Sprintf("err views=%d", len(views))
 	}
